@@ -19,6 +19,7 @@ def main():
                 continue
             shutil.rmtree(D, ignore_errors=True)
             subprocess.check_call(['rsync', '-a', '--exclude', 'target', '--exclude', '.git', '/repo/', D + '/'])
+            subprocess.call('find %s -name "*.rs" -exec touch {} +' % D, shell=True)
             ap = subprocess.run('patch -p1 -s < %s' % diff, shell=True, cwd=D)
             if ap.returncode != 0:
                 res['mutant%d' % i] = {'status': 'patch-failed'}
